@@ -64,7 +64,7 @@ def _sex_word(female):
 
 def call_diff(cnarr, tmpdir, method="threshold", ploidy=2, purity=None, male_ref=False, female=None, par=None,
               filters=None, thresholds=None, tag="c", vcf=None, sample_id=None, normal_id=None, min_variant_depth=20,
-              zygosity_freq=None):
+              zygosity_freq=None, center=None, center_at=None, drop_low=False):
     """`cnvkit.py call` against `call.do_call` on the same written table. -> None or a description of the difference.
     female=None leaves the sample sex to be inferred by both sides."""
     from cnvlib import call, cmdutil
@@ -87,6 +87,12 @@ def call_diff(cnarr, tmpdir, method="threshold", ploidy=2, purity=None, male_ref
         argv += ["--filter", f]
     if thresholds is not None:
         argv.append("-t=" + ",".join(repr(float(t)) for t in thresholds))
+    if center_at is not None:
+        argv += ["--center-at", repr(float(center_at))]
+    elif center:
+        argv += ["--center", center]
+    if drop_low:
+        argv.append("--drop-low-coverage")
     if vcf:
         argv += ["-v", vcf, "--min-variant-depth", int(min_variant_depth)]
         if sample_id is not None:
@@ -102,6 +108,12 @@ def call_diff(cnarr, tmpdir, method="threshold", ploidy=2, purity=None, male_ref
         cli_err = f"{type(exc).__name__}: {exc}"
     arr = read_cna(src)
     try:
+        # --center-at subtracts a constant from every log2; --center re-centres with the named estimator (skipping
+        # low-coverage bins with --drop-low-coverage) before calling
+        if center_at is not None:
+            arr["log2"] -= float(center_at)
+        elif center:
+            arr.center_all(center, skip_low=drop_low, diploid_parx_genome=par)
         # what the command documents: sample sex is only consulted for purity < 1; given -> used, else inferred
         is_female = None
         if purity and purity < 1.0:
